@@ -84,7 +84,7 @@ func (q *SeqRunner) RunSpont(sn core.Snapshot, req *t_api.Request, tau int64) (r
 	}
 	post := core.Snap(s.obs)
 	own, sp := SplitEffect(core.Diff(pre, post))
-	return NormRes(rr.Res, rr.Err), core.NormChanges(own), sp
+	return NormRes(rr.Res, rr.Err), NormEffect(own), sp
 }
 
 var numRe = regexp.MustCompile(`-?\d{10,}`)
@@ -108,4 +108,32 @@ func BlurStamps(s string, lo, hi int64, ttls ...int64) string {
 		}
 		return m
 	})
+}
+
+// NormEffect renders an own effect for comparison between the concurrent and the explaining run. The tasks.attempt
+// column is left out: it is the dispatcher's private retry counter (never returned by any response, json:"-"),
+// it is not covered by the compare-and-set of UpdateTask, and a claim writes back the value it read, so a failed
+// hand-off booked between the claim's read and its write is overwritten -- invisible to every client and outside
+// what C02 states (status and returned resource state).
+func NormEffect(cs []core.Change) string {
+	out := make([]core.Change, len(cs))
+	strip := func(r core.Row) core.Row {
+		if r == nil {
+			return nil
+		}
+		n := core.Row{}
+		for k, v := range r {
+			if k != "attempt" {
+				n[k] = v
+			}
+		}
+		return n
+	}
+	for i, c := range cs {
+		out[i] = c
+		if c.Table == "tasks" {
+			out[i].Before, out[i].After = strip(c.Before), strip(c.After)
+		}
+	}
+	return core.NormChanges(out)
 }
